@@ -71,6 +71,8 @@ struct Scenario {
     arg_style: usize,
     /// file names with blanks and non-ASCII characters
     odd_names: bool,
+    /// the input path is a symbolic link to the file that holds the document
+    input_symlink: bool,
 }
 
 const CLI_DERIVES: &[&str] = &[
@@ -125,6 +127,7 @@ fn decode(tapes: &Tapes) -> Scenario {
     let same_length_existing = m.chance(90);
     let empty_existing = m.chance(50);
     let mut rerun = m.chance(110);
+    let input_symlink = m.chance(40);
     let mut output = output;
     if matches!(input_kind, InputKind::Pipe) {
         // a pipe can be read once and cannot be the output
@@ -155,7 +158,7 @@ fn decode(tapes: &Tapes) -> Scenario {
         InputKind::Empty => input = m.pick(&["", " ", "<!-- c -->", "text only"]).as_bytes().to_vec(),
         _ => {}
     }
-    Scenario { input_kind, input, parser, parser_short, derive, sort, output, args_first, long_existing, arg_style, odd_names, same_length_existing, empty_existing, rerun }
+    Scenario { input_kind, input, parser, parser_short, derive, sort, output, args_first, long_existing, arg_style, odd_names, same_length_existing, empty_existing, rerun, input_symlink }
 }
 
 fn describe(s: &Scenario) -> Value {
@@ -203,6 +206,7 @@ fn plain_scenario(input: Vec<u8>, output: OutputKind) -> Scenario {
         same_length_existing: false,
         empty_existing: false,
         rerun: false,
+        input_symlink: false,
         arg_style: 0,
         odd_names: false,
     }
@@ -286,6 +290,11 @@ fn run(s: &Scenario, dir: &Path) -> Result<(), String> {
     match s.input_kind {
         InputKind::Missing | InputKind::Pipe => {}
         InputKind::Directory => std::fs::create_dir_all(&input_path).map_err(|e| format!("INFRA: {}", e))?,
+        _ if s.input_symlink && s.output != OutputKind::SameAsInput => {
+            let real = dir.join("the real input.xml");
+            std::fs::write(&real, &s.input).map_err(|e| format!("INFRA: {}", e))?;
+            std::os::unix::fs::symlink("the real input.xml", &input_path).map_err(|e| format!("INFRA symlink: {}", e))?;
+        }
         _ => std::fs::write(&input_path, &s.input).map_err(|e| format!("INFRA: {}", e))?,
     }
     let same_len: Option<Vec<u8>> = match (s.same_length_existing, library(s)) {
@@ -586,6 +595,9 @@ impl Property for C12 {
         if s.odd_names {
             st.count("file_names_with_blanks_and_non_ascii");
         }
+        if s.input_symlink && s.output != OutputKind::SameAsInput && !matches!(s.input_kind, InputKind::Missing | InputKind::Pipe | InputKind::Directory) {
+            st.count("input_path_is_a_symbolic_link");
+        }
         st.count(&format!("arg_style.{}", ["--opt=value", "--opt value", "-o value"][s.arg_style]));
         if s.output == OutputKind::ExistingFile && s.same_length_existing && matches!(s.input_kind, InputKind::Valid) {
             st.count("output.ExistingFile.same_length_other_content");
@@ -640,7 +652,7 @@ impl Property for C12 {
         Err(Failure::new(format!("no boundary scenario is labelled `{}`", label)))
     }
     fn rule(&self) -> String {
-        "output paths also as a symbolic link (dangling, or to an existing file: the path must hold the output afterwards, written through or replaced; link and target untouched when the input is at fault) and as the input file itself (overwritten, or refused cleanly); a fixed buffer-boundary family (inputs with a 2-, 3- or 4-byte character starting 0..len bytes before offsets 4096, 8192, 16384, 24576, 32768, 65536; inputs whose output has exactly 4096/8192/16384 bytes, one or two less, one more; stdout, new file, existing file); sampled: one process run of the freshly built CLI per case: input file in {generated valid document, byte-damaged UTF-8 document, non-UTF-8, missing, a directory, element-less, a valid document read from a pipe (/dev/stdin, reported size 0; also 12 enumerated pipe inputs of 1 byte .. 200 KB)} x --parser/-p in {default, quick-xml-de, serde-xml-rs} x --derive=<string from a list incl. empty, leading dashes, unicode, newline, shell metacharacters> or default x --sort in {default, unsorted, name} x output in {stdout, new file, existing file (empty, short, 15 KB and thus longer than the new output, or garbage of exactly the new output's length), path in a missing directory, path that is a directory, path below a regular file}, options before or after the positional arguments, written as `--opt=value`, `--opt value` or `-o value`, file names plain or with blanks and non-ASCII characters. Four in ten successful file outputs are followed by a second run into the same file with the other sort order and a permuted derive list (often the same output length). Oracle: success = exit 0 and stdout (plus newline) or file bytes equal header + in-process library rendering with the mapped options, stdout empty when a file is named; failure = exit 1, empty stdout, non-empty stderr, named output untouched when the input was at fault. Non-trivial = any non-default option, an output file or a fault; distinct by hash of input bytes and arguments.".into()
+        "output paths also as a symbolic link (dangling, or to an existing file: the path must hold the output afterwards, written through or replaced; link and target untouched when the input is at fault) and as the input file itself (overwritten, or refused cleanly); a fixed buffer-boundary family (inputs with a 2-, 3- or 4-byte character starting 0..len bytes before offsets 4096, 8192, 16384, 24576, 32768, 65536; inputs whose output has exactly 4096/8192/16384 bytes, one or two less, one more; stdout, new file, existing file); sampled: one process run of the freshly built CLI per case: input file in {generated valid document, byte-damaged UTF-8 document, non-UTF-8, missing, a directory, element-less, the path being a symbolic link to the file in about 1 of 9, a valid document read from a pipe (/dev/stdin, reported size 0; also 12 enumerated pipe inputs of 1 byte .. 200 KB)} x --parser/-p in {default, quick-xml-de, serde-xml-rs} x --derive=<string from a list incl. empty, leading dashes, unicode, newline, shell metacharacters> or default x --sort in {default, unsorted, name} x output in {stdout, new file, existing file (empty, short, 15 KB and thus longer than the new output, or garbage of exactly the new output's length), path in a missing directory, path that is a directory, path below a regular file}, options before or after the positional arguments, written as `--opt=value`, `--opt value` or `-o value`, file names plain or with blanks and non-ASCII characters. Four in ten successful file outputs are followed by a second run into the same file with the other sort order and a permuted derive list (often the same output length). Oracle: success = exit 0 and stdout (plus newline) or file bytes equal header + in-process library rendering with the mapped options, stdout empty when a file is named; failure = exit 1, empty stdout, non-empty stderr, named output untouched when the input was at fault. Non-trivial = any non-default option, an output file or a fault; distinct by hash of input bytes and arguments.".into()
     }
     fn assumptions(&self) -> Vec<String> {
         vec![
